@@ -30,6 +30,9 @@ CHECKS = {
  "C08": ("model_checking", "C08a: explicit-state BFS over copy/edit/reparse/walk/delete histories on up to 3 live handles with before/after snapshots (internal dump via hook H2) of every other handle. C08b: stateless exploration of ALL thread schedules up to a preemption bound for 2-3 real OS threads working on distinct copies, on the real C runtime under a baton-passing scheduler hooked (H1) at every reference-count atomic and plain ref_count read of shared nodes; each schedule replayed from a fresh parse and compared with sequential results, allocation balance and foreign/double frees.",
          "Sequentially consistent interleavings at hooked points only; non-atomic read-modify-write and weak memory orderings are outside the scheduler (TSan pass in the thorough tier).",
          "explicit-state BFS over handle histories + preemption-bounded exhaustive schedule enumeration (controlled scheduler on real code)", "DESIGN.md §2 C08"),
+ "C07": ("model_checking", "The explorers of C01 C02 C04 C06 C08 C09 C10 C13 re-run unchanged in an ASan+UBSan build of the C runtime, generated parsers and scanners (ts_assert live) with a counting allocator (balance must return to the baseline after every explorer, including cancelled-and-abandoned parses); every API call history up to depth 3 (thorough 4) over a 22-operation alphabet replayed from scratch with allocation balance; Query::new on every string of <=4 (thorough 5) query-syntax atoms, executing accepted queries.",
+         "Only the C side is instrumented. Uninitialised reads: separate valgrind pass (thorough). Sanitizer reports abort the worker and are reported with the recorded case.",
+         "explicit-state exploration of API call histories under sanitizers with allocation-balance monitors", "DESIGN.md §2 C07"),
 }
 REASON_WIP = "check not built yet (work in progress; see DESIGN.md build order)"
 def main():
